@@ -82,7 +82,8 @@ func For(pass *analysis.Pass) *Config {
 func mergeLists(a, b []string) []string {
 	out := make([]string, 0, len(a)+len(b))
 	for _, el := range b {
-		if el == "inherit" {
+		// Like check names and "all", "inherit" is case-insensitive.
+		if strings.EqualFold(el, "inherit") {
 			out = append(out, a...)
 		} else {
 			out = append(out, el)
@@ -105,7 +106,7 @@ func normalizeList(list []string) []string {
 	}
 
 	for _, el := range list {
-		if el == "inherit" {
+		if strings.EqualFold(el, "inherit") {
 			// This should never happen, because the default config
 			// should not use "inherit"
 			panic(`unresolved "inherit"`)
